@@ -78,6 +78,11 @@ func c07Probes() []fo.Decl {
 		mk("zwUse", "let zwUse () =\n  zwGlob + \"!\""),
 		mk("zwByMatch", "let zwByMatch =\n  match ZwA 3 with\n  | ZwA zwGlob -> zwGlob + 1\n  | _ -> 0"),
 		mk("zwUse2", "let zwUse2 (a:string) =\n  [a; zwGlob]"),
+		// two independent definitions that instantiate one generic library function with a PARTIAL
+		// explicit type-argument list; the second also has parameters of its own left to inference
+		mk("zwLabels", "let zwLabels (xs:[]int) =\n  slice.Map<int> (fun x -> \"s\") xs"),
+		mk("zwTagged", "let zwTagged (xs:[]int) first second =\n  (slice.Map<int> (fun x -> \"t\") xs, first, second)"),
+		mk("zwTagged2", "let zwTagged2 one (xs:[]string) two =\n  (one, two, slice.Map<string> (fun x -> 1) xs)"),
 		// hand-written Go helpers over a type of this package: the declaration block needs the type
 		// before it and is needed by its user; as a .foi argument it stands between two .fo files
 		mk("ZwMid ZwMx ZwMs", "type ZwMid = {ZwMx: int; ZwMs: string}"),
